@@ -105,7 +105,7 @@ func init() {
 		}
 	}
 	extraChecks["C11"] = func(p *Program, tier string) []*FuncReport {
-		return []*FuncReport{runEffectCheck(p, "determinism", map[string]bool{EffTime: true, EffRand: true, EffMapRange: true, EffGo: true, EffGlobalW: true}, custom)}
+		return []*FuncReport{runEffectCheck(p, "determinism", map[string]bool{EffTime: true, EffZone: true, EffRand: true, EffMapRange: true, EffGo: true, EffGlobalW: true}, custom)}
 	}
 }
 
@@ -262,6 +262,20 @@ func cmdCheck(args []string) int {
 			discharged++
 			bySolver[o.Solver]++
 			continue
+		}
+		if o.Kind == "effect" {
+			// effect and wiring obligations have no input region: a recorded finding names the failing call site itself
+			// (function + callee + ordinal); any other failing call site is still a violation
+			listed := false
+			for _, kf := range regionFor[o.Name] {
+				if kf.Region == "" {
+					listed = true
+					knownHit = append(knownHit, kf.What)
+				}
+			}
+			if listed {
+				continue
+			}
 		}
 		viols = append(viols, viol{o: o})
 	}
